@@ -4,7 +4,7 @@
    src/cffi/cparser.py on every run + the hand model of literal scanning (C09/Model.v).
    c_eval: typed C evaluation (C09/Spec.v; None = undefined behaviour / not a C constant expression;
    the boolean is the "exact" flag: no conversion changed a value, no unsigned operation wrapped). *)
-From Coq Require Import ZArith NArith String Ascii List Bool.
+From Coq Require Import ZArith NArith String Ascii List Bool Lia.
 Import ListNotations.
 From Cffi Require Import C09.Prim C09.Gen C09.Spec C09.Model C09.Proofs C09.Proofs2.
 Open Scope Z_scope.
@@ -35,45 +35,65 @@ Theorem C09_number_literals : forall s t v, number_literal s = Some (t, v) -> li
 Proof. exact number_literal_agree. Qed.
 Print Assumptions C09_number_literals.
 
-(* central statement, proved on the sub-class "exact": for every expression tree (any depth) whose C
-   evaluation is defined and in which no conversion changes a value and no unsigned operation wraps,
-   cffi computes the C value, or refuses the expression with CDefError (a refused literal) *)
-Theorem C09_agree_partial : forall e t v, c_eval e = Some (t, v, true) ->
-  py_eval [] e = Ok v \/ py_eval [] e = Err CDefError.
+(* Central statement, proved on the sub-class "exact".  cenv = the integer constants declared earlier with
+   their C types (enumerators: int), env = cffi's table _int_constants, holding the same values.
+   ACCEPTANCE: every expression tree (any depth) over earlier constants, numeric literals, character
+   constants of one (possibly escaped: simple escape or one octal digit) character, unary + - and the ten
+   binary operators, whose C evaluation is defined and in which no conversion changes a value and no
+   unsigned operation wraps, is accepted by cffi and evaluates to the C value. *)
+Theorem C09_accepted_with_C_value_partial : forall cenv env e t v, env_agree cenv env -> supported e ->
+  c_eval cenv e = Some (t, v, true) -> py_eval env e = Ok v.
+Proof. exact agree_accepted. Qed.
+Print Assumptions C09_accepted_with_C_value_partial.
+
+(* Without the restriction on character constants: the only other outcome is a refusal with CDefError, and
+   (C09_literals_strong) that happens only for character constants longer than 'c' / '\e' (multi-digit octal
+   and hex escapes), which C defines and cffi does not support. *)
+Theorem C09_agree_partial : forall cenv env e t v, env_agree cenv env -> c_eval cenv e = Some (t, v, true) ->
+  py_eval env e = Ok v \/ py_eval env e = Err CDefError.
 Proof. exact agree_exact. Qed.
 Print Assumptions C09_agree_partial.
 
+Theorem C09_literals_strong : forall s t v, c_literal s = Some (t, v) ->
+  lit_value s = Ok v \/ (lit_value s = Err CDefError /\ (5 <= length s)%nat /\ hd 0%N s = 39%N).
+Proof. exact literal_agree_strong. Qed.
+Print Assumptions C09_literals_strong.
+
 (* ... in the words of the property: an accepted expression of that class has the C value *)
-Theorem C09_accepted_value_partial : forall e t v v', c_eval e = Some (t, v, true) ->
-  py_eval [] e = Ok v' -> v' = v.
+Theorem C09_accepted_value_partial : forall cenv env e t v v', env_agree cenv env ->
+  c_eval cenv e = Some (t, v, true) -> py_eval env e = Ok v' -> v' = v.
 Proof.
-  intros e t v v' H P. destruct (agree_exact e t v H) as [Q|Q]; rewrite Q in P; [now inversion P|discriminate].
+  intros cenv env e t v v' EA H P. destruct (agree_exact cenv env e t v EA H) as [Q|Q]; rewrite Q in P;
+    [now inversion P|discriminate].
 Qed.
 Print Assumptions C09_accepted_value_partial.
 
 (* The full statement (without the exact flag) is false: known finding unsigned_arith *)
 Definition C09_full_statement : Prop :=
-  forall e t v f v', c_eval e = Some (t, v, f) -> py_eval [] e = Ok v' -> v' = v.
+  forall e t v f v', c_eval [] e = Some (t, v, f) -> py_eval [] e = Ok v' -> v' = v.
 
 Definition lit (s : string) : expr := Const (map (fun a => N_of_ascii a) (list_ascii_of_string s)).
 
 (* 0u - 1 : C 4294967295 (unsigned int), cffi -1 *)
 Theorem C09_refuted_0u_minus_1 :
-  c_eval (Binary "-" (lit "0u") (lit "1")) = Some (T RInt false, 4294967295, false) /\
+  c_eval [] (Binary "-" (lit "0u") (lit "1")) = Some (T RInt false, 4294967295, false) /\
   py_eval [] (Binary "-" (lit "0u") (lit "1")) = Ok (-1).
 Proof. split; vm_compute; reflexivity. Qed.
+Print Assumptions C09_refuted_0u_minus_1.
 
 (* 0xFFFFFFFF + 1 : the literal is unsigned int; C 0, cffi 2^32 *)
 Theorem C09_refuted_hex_plus_1 :
-  c_eval (Binary "+" (lit "0xFFFFFFFF") (lit "1")) = Some (T RInt false, 0, false) /\
+  c_eval [] (Binary "+" (lit "0xFFFFFFFF") (lit "1")) = Some (T RInt false, 0, false) /\
   py_eval [] (Binary "+" (lit "0xFFFFFFFF") (lit "1")) = Ok 4294967296.
 Proof. split; vm_compute; reflexivity. Qed.
+Print Assumptions C09_refuted_hex_plus_1.
 
 (* -0x80000000 : C 2147483648 (unsigned int), cffi -2147483648 *)
 Theorem C09_refuted_neg_hex :
-  c_eval (Unary "-" (lit "0x80000000")) = Some (T RInt false, 2147483648, false) /\
+  c_eval [] (Unary "-" (lit "0x80000000")) = Some (T RInt false, 2147483648, false) /\
   py_eval [] (Unary "-" (lit "0x80000000")) = Ok (-2147483648).
 Proof. split; vm_compute; reflexivity. Qed.
+Print Assumptions C09_refuted_neg_hex.
 
 Theorem C09_refuted : ~ C09_full_statement.
 Proof.
@@ -87,12 +107,26 @@ Example C09_example_exact :
   let e := Binary "+" (Binary "/" (Unary "-" (lit "7")) (lit "2"))
             (Binary "*" (Binary "%" (Unary "-" (lit "7")) (lit "2"))
                (Binary "|" (Binary "<<" (lit "0x1fUL") (lit "3")) (Binary ">>" (Unary "-" (lit "017")) (lit "0b1")))) in
-  c_eval e = Some (T RLong false, 5, false) /\       (* long mixed with unsigned long: not exact *)
+  c_eval [] e = Some (T RLong false, 5, false) /\       (* long mixed with unsigned long: not exact *)
   let e2 := Binary "+" (Binary "/" (Unary "-" (lit "7")) (lit "2"))
             (Binary "*" (Binary "%" (Unary "-" (lit "7")) (lit "2"))
                (Binary "|" (Binary "<<" (lit "0x1fL") (lit "3")) (Binary ">>" (Unary "-" (lit "017")) (lit "0b1")))) in
-  c_eval e2 = Some (T RLong true, 5, true) /\ py_eval [] e2 = Ok 5 /\
-  c_eval (lit "'\n'") = Some (T RInt true, 10, true) /\ py_eval [] (lit "'\n'") = Ok 10 /\
-  c_eval (lit "'\0'") = Some (T RInt true, 0, true) /\ py_eval [] (lit "'\0'") = Ok 0 /\
-  c_eval (lit "'\12'") = Some (T RInt true, 10, true) /\ py_eval [] (lit "'\12'") = Err CDefError.
-Proof. vm_compute. repeat split; reflexivity. Qed.
+  c_eval [] e2 = Some (T RLong true, 5, true) /\ py_eval [] e2 = Ok 5 /\ supported e2 /\
+  c_eval [] (lit "'\n'") = Some (T RInt true, 10, true) /\ py_eval [] (lit "'\n'") = Ok 10 /\
+  c_eval [] (lit "'\0'") = Some (T RInt true, 0, true) /\ py_eval [] (lit "'\0'") = Ok 0 /\
+  c_eval [] (lit "'\12'") = Some (T RInt true, 10, true) /\ py_eval [] (lit "'\12'") = Err CDefError.
+Proof. vm_compute. repeat split; try reflexivity; intros; try discriminate; lia. Qed.
+
+(* an earlier enumerator K = 7 (int) used in a later expression: (K << 2) - 'a' *)
+Example C09_example_env :
+  let cenv := [([75%N], (T RInt true, 7))] in
+  let env := [([75%N], 7)] in
+  let e := Binary "-" (Binary "<<" (Id [75%N]) (lit "2")) (lit "'a'") in
+  env_agree cenv env /\ supported e /\ c_eval cenv e = Some (T RInt true, -69, true) /\ py_eval env e = Ok (-69).
+Proof.
+  intros cenv env e. split; [|split; [|split]].
+  - intros n t v. unfold cenv, env. simpl. destruct (text_eqb n [75%N]); [intros H; now inversion H|discriminate].
+  - simpl. unfold supported_literal. repeat split; intros; simpl; try lia; try discriminate.
+  - vm_compute. reflexivity.
+  - vm_compute. reflexivity.
+Qed.
